@@ -35,11 +35,14 @@ pub struct Case {
 pub const POSITIONS: [&str; 10] = ["struct", "field", "unit-enum", "unit-variant", "tagged-enum", "tagged-variant", "variant-field", "alias", "inline-newtype", "redacted-struct"];
 
 /// terminator-class hazards: at most one kind per doc string (so that signatures name one cause)
-const HAZARDS: [(&str, &str); 11] = [("cr-and-lf", "\r"), ("quote-run", "\"\"\"\""), ("quote-run", "\"\"\"\"\""), ("carriage-return", "\r"), ("newline", "\n"), ("block-end", "*/"), ("triple-dquote", "\"\"\""), ("backslash", "\\"), ("trailing-backslash", "\\"), ("newline-crlf", "\r\n"), ("newline-mixed", "\r\n")];
+const HAZARDS: [(&str, &str); 13] = [("cr-inside-terminator", "*\r/"), ("cr-inside-terminator", "\"\r\"\""), ("cr-and-lf", "\r"), ("quote-run", "\"\"\"\""), ("quote-run", "\"\"\"\"\""), ("carriage-return", "\r"), ("newline", "\n"), ("block-end", "*/"), ("triple-dquote", "\"\"\""), ("backslash", "\\"), ("trailing-backslash", "\\"), ("newline-crlf", "\r\n"), ("newline-mixed", "\r\n")];
 const BENIGN: [&str; 10] = ["plain words", "//", "#", "`", "\"", "'''", "/*", "x = 1;", "}", "<T>"];
 
 fn hazard_of(d: &DocSpec) -> &'static str {
     let last = d.pieces.last().map(|s| s.as_str()).unwrap_or("");
+    if d.pieces.iter().any(|p| p.contains("*\r/") || p.contains("\"\r\"\"")) {
+        return "cr-inside-terminator";
+    }
     if d.pieces.iter().any(|p| p.replace("\r\n", "").contains('\r')) {
         // a lone CR and, elsewhere in the same string, a LF
         return if d.pieces.iter().any(|p| p.replace("\r\n", "").contains('\n')) { "cr-and-lf" } else { "carriage-return" };
@@ -106,9 +109,9 @@ fn doc_strategy() -> BoxedStrategy<DocSpec> {
                 let (name, text) = HAZARDS[h];
                 // respect the source syntax: `///` cannot hold a newline, `/** */` cannot hold `*/` (and nests `/*`)
                 let ok = match form {
-                    DocForm::Line => !name.starts_with("newline") && name != "carriage-return" && name != "cr-and-lf",
+                    DocForm::Line => !name.starts_with("newline") && name != "carriage-return" && name != "cr-and-lf" && name != "cr-inside-terminator",
                     // a carriage return cannot be written inside a doc comment (rustc rejects a bare CR there)
-                    DocForm::Block => name != "block-end" && name != "newline-crlf" && name != "newline-mixed" && name != "carriage-return" && name != "cr-and-lf",
+                    DocForm::Block => name != "block-end" && name != "newline-crlf" && name != "newline-mixed" && name != "carriage-return" && name != "cr-and-lf" && name != "cr-inside-terminator",
                     DocForm::Attr => true,
                 };
                 if ok {
@@ -247,7 +250,8 @@ fn eval_program(run: &Run, case: &Case, w: &mut Worker, counting: bool, combined
     let src = items_src(&items);
     let mut out = vec![];
     for lang in ALL_LANGS {
-        let text = match ts::generate(lang, &case.cfg, &[&src], &[]) {
+        let generated = if w.via_cli { crate::cli::generate(lang, &case.cfg, &src, &w.scratch) } else { ts::generate(lang, &case.cfg, &[&src], &[]) };
+        let text = match generated {
             Outcome::Ok(t) => t,
             o => {
                 if counting {
@@ -341,6 +345,24 @@ impl SubCheck for C15 {
         if isolated_ok && ids.len() > 1 {
             let v = eval_program(run, case, w, false, true);
             out.extend(v);
+        }
+        // 3. the same through the real binary (whatever the CLI does to the bytes after the back end wrote them): every
+        // doc string with a hazard on its own, for a sixth of the cases
+        if out.is_empty() && crate::cli::bin_available() && fnv(&[src.as_bytes()]) % 6 == 0 {
+            w.via_cli = true;
+            for (pos, list) in case.docs.iter().enumerate() {
+                for d in list.iter().filter(|d| hazard_of(d) != "benign") {
+                    let mut single = Case { docs: vec![vec![]; 10], cfg: case.cfg.clone() };
+                    single.docs[pos] = vec![d.clone()];
+                    for v in eval_program(run, &single, w, false, false) {
+                        out.push(Violation::new(format!("cli/{}", v.sig), v.detail));
+                    }
+                    if counting {
+                        run.label("via-cli/doc-strings");
+                    }
+                }
+            }
+            w.via_cli = false;
         }
         out
     }
